@@ -9,6 +9,7 @@
 import Homonim.GeneratedCode
 import Homonim.Model.Sched
 import Homonim.Model.FS
+import Homonim.Model.Cli
 namespace Homonim
 open Homonim.Src
 
@@ -20,5 +21,13 @@ theorem src_C04_prog (param : Bool) : prog param = progBase ++ (if param then pr
 theorem src_C10_out_files (fs : FS) (c : Call) : processCall fs c = runEvents fs c outFilesEvents := by
   unfold processCall outFilesEvents
   simp only [runEvents]
+
+/-- `FuseCommand.invoke` (C19): a configuration-file value replaces a parameter exactly under the condition the source states,
+    and the default creation options are used exactly under the source's condition -/
+theorem src_C19_merge {α : Type} (p : PVal α) (c : α) :
+    mergeKey p (some c) = (if cli_mergeCond p.val.isNone (p.src == .default) then ⟨some c, .commandline⟩ else p) ∧
+    ∀ d o : PSource, useDefaultCreationOptions d o = cli_defaultCoCond (d == .default) (o == .default) := by
+  unfold mergeKey cli_mergeCond useDefaultCreationOptions cli_defaultCoCond
+  exact ⟨rfl, fun _ _ => rfl⟩
 
 end Homonim
